@@ -691,12 +691,12 @@ impl World {
         fut: impl std::future::Future<Output = ClientResult> + Send + 'static,
     ) {
         let handle = sim::spawn_labelled(format!("client:{what}#{op}"), fut);
-        if lookup_idx.is_some() {
-            // The caller polls its future once right away (registering its waker), so that the moment
-            // the answer is produced is observable as the task's wake-up time. Later polls are
-            // explorer-scheduled.
-            sim::poll(handle.id());
-        }
+        // A caller that awaits an async call polls it once right away: the call's synchronous prefix
+        // (e.g. `wait()` submitting its markers) runs at issue time and the waker is registered, so the
+        // moment the answer is produced is observable as the task's wake-up time. Later polls are
+        // explorer-scheduled.
+        let _ = lookup_idx;
+        sim::poll(handle.id());
         self.clients.push(ClientTask {
             op,
             handle,
@@ -1076,7 +1076,10 @@ impl World {
                     }
                     Ok(ClientResult::Unit(res)) => {
                         if let Some(ci) = c.call_idx {
-                            h.calls[ci].3 = Some(now);
+                            // The call was answered when its task was woken (the acknowledgement was sent),
+                            // not when the caller got around to polling it.
+                            let (woken, polls) = sim::wake_info(c.handle.id());
+                            h.calls[ci].3 = Some(if polls > 1 { woken.unwrap_or(now).min(now) } else { now });
                         }
                         if let Some(wi) = c.write_idx {
                             h.writes[wi].resp = Some(now);
